@@ -13,14 +13,18 @@ set_defaults, config_finalize) plus an operation sequence on one connection:
 The Lean model gets the tree the generator intended (node tokens); the harness prints the
 tree the parser really built, every result, and the whole cond_cache after every step.
 The oracle is an independent Python evaluator of the configuration language (recursion
-over the source-level config, python `re`, python `ipaddress`)."""
+over the source-level config, python `re`, python `ipaddress`).
+
+Function-level stream `x <hex>`: configparser_simplify_regex() (harness) vs Model/CondSimplify.lean
+`simplifyRegex` (driver) on the string of a `=~` condition; oracle `simp_oracle` = python `re`
+on the string as written vs the stored ==/=^/=$ comparison."""
 import ipaddress, itertools, os, re, socket
 from .. import common as C
 
 MANIFEST = dict(
     text="Lean 4 theorems over an executable model of config_check_cond*/config_cond_cache_reset_item/"
          "config_cond_clear_node/config_cond_cache_reset/h2_init_stream cache copy/patch_config/"
-         "sock_addr_is_addr_eq_bits. PROVED (model): for every well-formed condition tree and every "
+         "sock_addr_is_addr_eq_bits/configparser_simplify_regex/config_finalize regex rebuild. PROVED (model): for every well-formed condition tree and every "
          "disciplined interleaving of checks, attribute rewrites paired with reset_item, full resets, "
          "arbitrary validity-mask changes, new requests, stream spawns and patch_config runs, each "
          "config_check_cond result is `true` only for an applying block, and iff it applies once the fields "
@@ -28,9 +32,15 @@ MANIFEST = dict(
          "HANDLER_COMEBACK and connection-level masks); every patch_config in such a history gives each "
          "directive the last contributing block in context order; order independence; connection-level "
          "results stay valid when copied into a stream; CIDR = first n bits incl. IPv4-mapped forms; "
-         "host[:port] rule. TESTED ONLY (differential + independent Python oracle, ASan/UBSan): that the C "
+         "host[:port] rule; for every regex string, a `=~` that configparser_simplify_regex() rewrites into =^ / =$ / == "
+         "is an anchored escaped literal and the stored comparison equals the (model) regex match on every "
+         "request attribute, except `==` on host (keeps the host[:port] rule: witness theorem) / remoteip; "
+         "config_finalize's rebuilt regex text is the text as written. TESTED ONLY (differential + independent Python oracle, ASan/UBSan): that the C "
          "equals the model (real parser, configfile-glue.c, mod_setenv, http_response_config, "
-         "h2_init_stream); text -> tree parsing (configparser.y); =~/!~ through PCRE2; that the glue pairs "
+         "h2_init_stream; configparser_simplify_regex at function level incl. all strings <= 5 over 8 symbols, "
+         "with python `re` as reference engine); text -> tree parsing (configparser.y) apart from "
+         "simplify_regex; that an anchored literal regex text denotes the literal matcher (driver regexOf); "
+         "config_finalize's rebuild only via the srv stream (Python port), no direct op; =~/!~ through PCRE2; that the glue pairs "
          "every attribute rewrite with the matching reset and re-derives attributes on request restart "
          "(mini-server stream: mod_extforward remote address + scheme, mod_rewrite restart, mod_setenv). "
          "OUTSIDE: mod_magnet, TLS SNI, path-info split call site, regex captures",
@@ -1140,6 +1150,112 @@ def dup_oracle(line, out):
     return None
 
 
+# ----------------------------------------------------------------------------
+# configparser_simplify_regex() at function level (harness / driver op `x`)
+# ----------------------------------------------------------------------------
+_PLAIN_RE = re.compile(rb'(?s)(\^[^\\^$.|?*+()\[\]{}\x00]*\$?|(\\\.)?[^\\^$.|?*+()\[\]{}\x00]*\$)\Z')
+
+
+def simp_holds(cond, s, l):
+    return {"eq": l == s, "pr": l.startswith(s), "su": l.endswith(s)}[cond]
+
+
+def simp_subjects(s):
+    out = {b"", s, s + b"x", b"x" + s, b"x" + s + b"x", s[:-1], s[1:], s + s, s[:1] + b"x" + s[1:],
+           s.upper(), s.replace(b".", b"a"), b"/" + s, s + b"/"}
+    return [l for l in out if b"\n" not in l]
+
+
+def simp_oracle(line, out, verbose=False):
+    """independent statement (python `re` as the reference regex engine): a `=~ b` that the parser
+    replaces by ==, =^ or =$ on a string s must mean the same as the regular expression b on every
+    subject; what is left alone is unchanged; every anchored plain literal is replaced"""
+    b = C.unhx(line.split(" ")[1])
+    f = out.split(" ")
+    if len(f) != 2 or f[0] not in ("re", "eq", "pr", "su"):
+        return "output|simplify_regex: unexpected output %r" % out
+    cond, s = f[0], C.unhx(f[1])
+    shape = _PLAIN_RE.match(b) is not None
+    if cond == "re":
+        if s != b:
+            return "changed|simplify_regex: condition left as a regex but its string was changed: %r -> %r" % (b, s)
+        if shape:
+            return "missed|simplify_regex: anchored plain literal %r was not simplified" % b
+        return None
+    if b"\n" in b:
+        return None if shape else "notlit|simplify_regex: %r is not an anchored literal but was stored as %s %r" % (b, cond, s)
+    try:
+        rx = re.compile(b)
+    except re.error:
+        return "notlit|simplify_regex: %r is not a literal regex but was stored as %s %r" % (b, cond, s)
+    for l in simp_subjects(s):
+        want = rx.search(l) is not None
+        got = simp_holds(cond, s, l)
+        if want != got:
+            return ("meaning-%s|simplify_regex: `=~ %r` stored as `%s %r`: on subject %r the regex %s but the stored "
+                    "condition %s" % (cond, b, cond, s, l, "matches" if want else "does not match",
+                                      "holds" if got else "does not hold"))
+    return None
+
+
+def simp_classify(line, out):
+    b = C.unhx(line.split(" ")[1])
+    body = b[1:] if b[:1] == b"^" else b
+    body = body[:-1] if body[-1:] == b"$" else body
+    return "simplify:%s:%s%s%s:%s:len%d" % (
+        out.split(" ")[0], "^" if b[:1] == b"^" else "", "\\." if b[:2] == b"\\." else "",
+        "$" if b[-1:] == b"$" else "",
+        "plain" if not any(c in REGEX_CHARS.encode() + b"\0" for c in body) else
+        "nul" if 0 in body else "meta", min(len(b), 8))
+
+
+def gen_simplify(ctx):
+    rng = ctx.rng
+    cases = {}
+
+    def add(kind, b):
+        if b not in cases:
+            cases[b] = kind
+
+    # the regexes of every other stream, and their variations
+    for lst in REGEX.values():
+        for r in lst:
+            add("vocabulary", r.encode())
+    # exhaustive small scope: every string of length <= 5 (thorough 6) over 8 symbols
+    alpha = [b"a", b"/", b".", b"^", b"$", b"\\", b"*", b"\0"]
+    for n in range(0, 6 if ctx.quick else 7):
+        for t in itertools.product(alpha, repeat=n):
+            add("exhaustive(len<=%d,8 symbols)" % (5 if ctx.quick else 6), b"".join(t))
+    # structured: anchors x literal with at most one regex character at a chosen place
+    lits = [b"", b"a", b"/a/b", b"php", b"index.html", b"h1", b"10", b"x-y_z~", b"a b", b"\xc3\xa9t\xc3\xa9", b":80"]
+    metas = [bytes([c]) for c in REGEX_CHARS.encode()] + [b"\0", b"\\.", b"\\\\", b"\\$", b".*"]
+    for lit in lits:
+        for pre in (b"", b"^", b"\\.", b"^\\.", b"\\", b"^^", b"."):
+            for post in (b"", b"$", b"$$", b"\\$", b".$"):
+                add("structured(plain)", pre + lit + post)
+                for m in metas:
+                    for pos in sorted(set([0, len(lit) // 2, len(lit)])):
+                        add("structured(one regex char)", pre + lit[:pos] + m + lit[pos:] + post)
+    # malformed / random bytes
+    for _ in range(4000 if ctx.quick else 40000):
+        n = rng.randint(0, 12)
+        k = rng.random()
+        if k < 0.4:
+            body = bytes(rng.choice(b"abc/-_:%=&~ 019") for _ in range(n))
+        elif k < 0.7:
+            body = bytes(rng.choice(b"ab/." + REGEX_CHARS.encode()) for _ in range(n))
+        else:
+            body = bytes(rng.randrange(256) for _ in range(n))
+        add("random", rng.choice([b"", b"^", b"^", b"\\.", b"\\"]) + body + rng.choice([b"", b"$", b"$"]))
+    lines = []
+    for b, kind in cases.items():
+        # (label by content: the generators overlap, e.g. lit "php" + inserted "^" + post "$")
+        ctx.dist["simplify:" + kind + (": anchored plain literal" if _PLAIN_RE.match(b) else "")] += 1
+        lines.append("x " + C.hx(b))
+    lines.sort(key=lambda l: (len(l), l))
+    yield lines
+
+
 def gen_match(ctx):
     """CIDR / host:port matrix: every configured network against every peer"""
     rng = ctx.rng
@@ -1205,6 +1321,18 @@ def run(ctx):
     root = C.scratch_dir("c14")
     os.makedirs(os.path.join(root, "docroot"))
     os.environ["LTV_C14_ROOT"] = root          # (parallel_lines() has no env parameter)
+    for lines in gen_simplify(ctx):
+        seen = set()
+
+        def first_per_kind(line, out):
+            # cases are sorted by length: the first hit of each failure kind is a shortest one
+            v = simp_oracle(line, out)
+            if v is None or v.split("|", 1)[0] in seen:
+                return None
+            seen.add(v.split("|", 1)[0])
+            return v.split("|", 1)[1]
+        ctx.differential("simplify_regex(function level: all strings <= 5 over 8 symbols, structured, random)",
+                         [exe], "cond", lines, first_per_kind, simp_classify)
     for name, g in (("cond(regression corpus)", gen_corpus),
                     ("cond(exhaustive small trees x op sequences)", gen_small),
                     ("cond(attribute-rewrite histories)", gen_rewrites),
@@ -1243,10 +1371,14 @@ def replay_line(ctx, rep):
     o, rc, e = C.run_lines([exe], [rep["input"]])
     m, _, _ = C.run_model("cond", [rep["input"]])
     print("input:", rep["input"])
-    print("config:\n" + C.unhx(rep["input"].split(" ")[1]).decode("latin-1"))
+    is_x = rep["input"].startswith("x ")
+    print(("regex: %r" if is_x else "config:\n%s") % (C.unhx(rep["input"].split(" ")[1]) if is_x else
+                                                     C.unhx(rep["input"].split(" ")[1]).decode("latin-1")))
     print("impl :", o, rc)
     print("model:", m)
-    v = oracle(rep["input"], o[0], verbose=True) if o else "crash"
+    v = ((simp_oracle if is_x else oracle)(rep["input"], o[0], verbose=True)) if o else "crash"
+    if is_x and v:
+        v = v.split("|", 1)[1]
     print("oracle:", v)
     if v or o != m or rc != 0:
         print("VIOLATION property=%s replay=%s" % (ctx.pid, "(replayed)"))
